@@ -52,6 +52,9 @@ pub struct Scn {
     /// simulated milliseconds (one scheduling step each), then goes on
     #[serde(default)]
     pub reader_stall: Option<(usize, u32)>,
+    /// Some((k, secs)): before its k-th write the controller is silent for `secs` simulated seconds
+    #[serde(default)]
+    pub writer_pause: Option<(usize, u32)>,
     /// shuttle scheduler: 0 = random, d > 0 = PCT of depth d
     pub pct_depth: usize,
     pub sched_seed: u64,
@@ -185,10 +188,16 @@ fn body(scn: &Scn, g: &Guest, slot: &Arc<Mutex<Option<ExecResult>>>) {
     let chunks = scn.chunks.clone();
     let half = matches!(scn.ending, Ending::HalfClose { .. });
     let wbytes = bytes.clone();
+    let wpause = scn.writer_pause;
     let writer = shuttle::thread::spawn(move || {
         let mut pos = 0usize;
         let mut ci = 0usize;
         while pos < wbytes.len() {
+            if let Some((k, secs)) = wpause {
+                if ci == k {
+                    simstd::thread::sleep(std::time::Duration::from_secs(secs as u64));
+                }
+            }
             let n = chunks.get(ci).copied().unwrap_or(wbytes.len()).max(1).min(wbytes.len() - pos);
             ci += 1;
             // count exactly the bytes the stream accepted (a write may be short, or fail half way through a chunk)
@@ -559,6 +568,12 @@ fn run_one(scn: &Scn, g: &Guest, seed: u64) -> ExecResult {
 fn gen_text(rng: &mut Rng) -> Vec<u8> {
     let alphabet: [&str; 20] = ["a", "Z", " ", "\n", "\\", "\\n", "\\\\", ":", "\r", "\u{e9}", "\u{3042}", "\u{1f600}", "stdout:", "cmd:stop\n", "\\\n", "n", "\u{2028}", "\u{85}", "\r\n", "\0"];
     // mostly short; sometimes long enough that multi-byte characters straddle byte 128 / 1024 of the outgoing line
+    if rng.chance(1, 80) {
+        // 4096 bytes, nearly all of which double when escaped: one outgoing line of more than 8192 bytes
+        let n = *rng.pick(&[4096usize, 4096, 4093, 4090, 4000]);
+        let plain = rng.below(3) as usize; // 0-2 bytes that do not double
+        return (0..n).map(|i| if i < plain { b'a' } else { *rng.pick(b"\n\\") }).collect();
+    }
     let len = match rng.below(40) {
         0..=2 => rng.range(100, 300),
         3 => rng.range(1000, 1200),
@@ -703,6 +718,8 @@ impl Property for C18N {
             exit_after: if rng.chance(1, 2) { Some(rng.below(40) as u32) } else { None },
             sock_cap,
             reader_stall,
+            // one run in twelve: the controller says nothing for 31-600 simulated seconds somewhere in its script
+            writer_pause: if rng.chance(1, 12) { Some((rng.below(4) as usize, rng.range(31, 600) as u32)) } else { None },
             pct_depth: 0,
             sched_seed: rng.next_u64(),
             sched_tries: 1,
@@ -783,6 +800,9 @@ impl Property for C18N {
         if scn.reader_stall.is_some() {
             bump(stats, "event.controller_stops_reading_for_seconds");
         }
+        if scn.writer_pause.is_some() {
+            bump(stats, "event.controller_silent_for_more_than_30_simulated_seconds");
+        }
         if scn.ending == Ending::Fault {
             bump(stats, "event.run_ends_in_an_error_and_main_unwinds");
         }
@@ -811,6 +831,9 @@ impl Property for C18N {
         }
         if scn.reader_stall.is_some() {
             out.push(search(Scn { reader_stall: None, ..scn.clone() }));
+        }
+        if scn.writer_pause.is_some() {
+            out.push(search(Scn { writer_pause: None, ..scn.clone() }));
         }
         if scn.sock_cap > 0 {
             out.push(search(Scn { sock_cap: 0, reader_stall: None, ..scn.clone() }));
